@@ -99,6 +99,8 @@ class Gen:
                 out.append(z if self.r.random() < 0.6 else z * self.r.choice(self.syms))
             elif k < 0.80 and k >= 0.76:
                 out.append(self.r.choice([self.sp.Integer(0), self.sp.Float(0.0)]))  # literal zero: any dimension
+            elif 0.80 <= k < 0.86 and top and nan_ok:
+                out.append(self.r.choice(self.nan_qs))
             elif k < 0.76 and top:
                 # (NaN only in sums: SymPy itself refuses Max(nan, x) as 'not comparable')
                 out.append(self.r.choice([self.sp.oo, self.inf_qs[0], -self.sp.oo] + (self.nan_qs if nan_ok else [])))
@@ -121,6 +123,15 @@ class Gen:
         if k < 0.37:
             return self.gen(d - 1) / self.nz(self.gen(d - 1))
         if k < 0.57:
+            if top and r.random() < 0.12:
+                # several numeric terms kept apart (unevaluated): an any-valued number next to an ordinary one next to a term
+                nums = [r.choice([sp.Integer(0), sp.oo, sp.Float(0.0), -sp.oo]), r.choice([sp.Integer(5), sp.pi, sp.Float(2.5), sp.Rational(1, 3)])]
+                if r.random() < 0.5:
+                    nums.reverse()
+                args = nums + [self.gen(d - 1)]
+                if r.random() < 0.3:
+                    r.shuffle(args)
+                return r.choice([sp.Add, sp.Add, sp.Max, sp.Min])(*args, evaluate=False)
             return sp.Add(*self.same_dim_args(d, r.choice([2, 2, 3]), top, nan_ok=True))
         if k < 0.69:
             ex = r.choice([2, -1, sp.Rational(1, 2), 3, sp.Rational(-3, 2), self.leaf()])
